@@ -224,11 +224,13 @@ func runC11(rc *RunCtx) {
 		done    bool
 		rec     *simnet.DgramRec
 		id      string
+		late    bool // fired around the closing reload, with a key of the last two configurations only
 	}
 	var shots []*shot
 	nShots := 2 + G.Draw(10)
-	for i := 0; i < nShots; i++ {
-		s := &shot{tcp: len(retU) == 0 || G.Draw(3) != 0, key: both[G.Draw(len(both))], msg: []byte(fmt.Sprintf("shot-%d|%x", i, payload(G, 8)))}
+	launch := func(key *Key, late bool) {
+		i := len(shots)
+		s := &shot{tcp: len(retU) == 0 || G.Draw(3) != 0, key: key, late: late, msg: []byte(fmt.Sprintf("shot-%d|%x", i, payload(G, 8)))}
 		s.id = fmt.Sprintf("shot-%d", i)
 		if s.tcp {
 			s.addr = retT[G.Draw(len(retT))]
@@ -236,7 +238,6 @@ func runC11(rc *RunCtx) {
 			s.addr = retU[G.Draw(len(retU))]
 		}
 		shots = append(shots, s)
-		i := i
 		if s.tcp {
 			startTarget(w, tgtIP, 7200+i, echoTarget)
 		}
@@ -292,6 +293,9 @@ func runC11(rc *RunCtx) {
 			s.done = true
 		})
 	}
+	for i := 0; i < nShots; i++ {
+		launch(both[G.Draw(len(both))], false)
+	}
 	// ---- the reloads ----
 	simrt.GoNamed("c11-reloader", func() {
 		// the long-lived connections must be relaying before the first reload
@@ -339,6 +343,41 @@ func runC11(rc *RunCtx) {
 			} else if err := ms.reload(cfgs[v], false); err != nil {
 				reloadErr = err
 				break
+			}
+		}
+		// A closing reload to the same configuration (half of the runs), with clients
+		// that use a key which the last configuration has but an earlier one lacked:
+		// it is "present in both configurations" of this reload, so it authenticates
+		// throughout, whichever generation takes the connection (all the earlier
+		// ones are long stopped).
+		if reloadErr == nil && G.Draw(2) == 0 {
+			last := cfgs[nVer-1]
+			var cand []*Key
+			for _, k := range last.Services[0].Keys {
+				isBoth := false
+				for _, b := range both {
+					isBoth = isBoth || b == k
+				}
+				if !isBoth && !cryptoDup(last.Services[0].Keys, k) {
+					cand = append(cand, k)
+				}
+			}
+			if len(cand) > 0 {
+				k := cand[G.Draw(len(cand))]
+				for n := 2 + G.Draw(5); n > 0; n-- {
+					launch(k, true)
+				}
+				simrt.Probe("closing_reload_with_recent_key")
+				if viaSignal {
+					reads := ms.OS.Reads
+					ms.reload(last, true)
+					for tries := 0; ms.OS.Reads == reads && tries < 100; tries++ {
+						simrt.Sleep(time.Millisecond)
+					}
+				} else if err := ms.reload(last, false); err != nil {
+					reloadErr = err
+				}
+				simrt.Sleep(8 * time.Millisecond) // the late clients start within 6 ms
 			}
 		}
 		simrt.Sleep(2 * time.Millisecond)
@@ -391,7 +430,7 @@ func runC11(rc *RunCtx) {
 				continue
 			}
 			if recs[0].first("auth") == nil {
-				rc.Failf("common-key-rejected-during-reload", "connection %d to retained address %s with key %s (present in every configuration) was not authenticated: status %s", i, s.addr, s.key.ID, recs[0].first("closed").Status)
+				rc.Failf("common-key-rejected-during-reload", "connection %d to retained address %s with key %s (present in %s) was not authenticated: status %s", i, s.addr, s.key.ID, map[bool]string{false: "every configuration", true: "both configurations of the closing reload"}[s.late], recs[0].first("closed").Status)
 			} else if !bytes.Equal(s.echo, s.msg) {
 				rc.Failf("echo-mismatch", "connection %d: authenticated, but echo %q != %q (status %s)", i, s.echo, s.msg, recs[0].first("closed").Status)
 			}
